@@ -25,8 +25,51 @@ def gen_dense(rng, tier, exact=True):
             instrs.append({"name": rng.choice(INT_GATES), "qubits": qs})
         else:
             instrs.append({"name": rng.choice(["swap", "cx", "cz", "iswap"]), "qubits": qs})
+    glo = rng.random() < 0.65   # otherwise wire cuts only: repeated pairs then force "cut both wires" plans
     return {"nq": nq, "instrs": instrs, "seed": rng.choice([0, 1, rng.randrange(1 << 30)]), "max_gamma": 1e6, "max_backjumps": None,
-            "gate_lo": True, "wire_lo": True, "width": 2, "exact": exact}
+            "gate_lo": glo, "wire_lo": True, "width": rng.choice([2, 2, 3]), "exact": exact}
+
+
+def gen_repeat(rng, tier):
+    """gates repeated on the same pair (the second one finds both qubits already in one subcircuit) followed by a gate that needs
+    a cut; wire cuts only or both kinds; tight width"""
+    nq = rng.randint(3, 4)
+    pool = [rng.sample(range(nq), 2) for _ in range(rng.randint(2, 3))]
+    instrs, prev = [], None
+    for _ in range(rng.randint(4, 6)):
+        q = prev if (prev is not None and rng.random() < 0.5) else rng.choice(pool)
+        if rng.random() < 0.3:
+            q = q[::-1]
+        instrs.append({"name": rng.choice(["cx", "cx", "cz"]), "qubits": list(q)})
+        prev = q
+    return {"nq": nq, "instrs": instrs, "seed": rng.randrange(1 << 30), "max_gamma": 1e6, "max_backjumps": None,
+            "gate_lo": rng.random() < 0.4, "wire_lo": True, "width": rng.choice([2, 2, 3]), "exact": True}
+
+
+def gen_bridge(rng, tier, fam=None):
+    """two blocks joined by one gate of a random family (every registered name), so that this gate is the one that gets cut and its
+    own overhead is the reported one; qubits are first touched out of index order"""
+    import math
+    k = rng.randint(1, 2)
+    nq = 2 * k + 2
+    order = list(range(nq))
+    rng.shuffle(order)
+    A, B = order[: k + 1], order[k + 1:]
+    fam = fam or rng.choice(gen.FIXED_2Q + gen.PARAM_2Q)
+    bridge = {"name": fam, "qubits": [A[-1], B[0]]}
+    if fam in gen.PARAM_2Q:
+        bridge["params"] = [gen.rand_angle(rng)]
+    instrs = []
+    for blk in (B, A):   # the higher block is touched first
+        for a, b in zip(blk, blk[1:]):
+            instrs.append({"name": "cx", "qubits": [a, b]})
+    instrs.insert(rng.randint(0, len(instrs)), bridge)
+    for blk in (A, B):
+        for a, b in zip(blk, blk[1:]):
+            instrs.append({"name": "cx", "qubits": [b, a]})
+    glo, wlo = rng.choice([(True, True), (True, False), (False, True)])
+    return {"nq": nq, "instrs": instrs, "seed": rng.randrange(1 << 30), "max_gamma": 1e6, "max_backjumps": None, "gate_lo": glo, "wire_lo": wlo,
+            "width": k + 1, "exact": fam in INT_GATES}
 
 
 def gen_tie_rich(rng, tier):
@@ -51,6 +94,10 @@ def gen_case(rng, tier, exact=None, restricted=None):
             return gen_dense(rng, tier, exact=(exact is True) or rng.random() < 0.6)
         if r0 < 0.27:
             return gen_tie_rich(rng, tier)
+        if r0 < 0.40 and exact is None:
+            return gen_bridge(rng, tier)
+        if r0 < 0.50:
+            return gen_repeat(rng, tier)
     if exact is None:
         exact = rng.random() < 0.6
     nq = rng.randint(2, 6 if tier == "quick" else 8)
